@@ -410,8 +410,41 @@ def r7_fixed_time_budget(ck, cx):
     ck.floor('R7', n, 2, 'time references of client polling loops')
 
 
+def r8_send_wait_loop_progress(ck, cx):
+    """RTU sendPacket waits for the client state to become IDLE.  Every iteration of that loop either sets the state to IDLE
+    itself or is an iteration of the deadline branch (a comparison of the clock with the deadline taken before the loop,
+    which eventually fires): an iteration that does neither can repeat forever."""
+    ck.rule('R8', 'the state-wait loop of the RTU sendPacket makes progress in every iteration: it sets the awaited state or is waiting on the deadline')
+    c = cx.idx.cls('pymodbus.framer.rtu_framer.ModbusRtuFramer')
+    f = cx.method(c, 'sendPacket')
+    ck.saw('functions', f.qn)
+    loops = [x for x in ast.walk(f.node) if isinstance(x, ast.While)]
+    n = 0
+    for loop in loops:
+        awaited = [x for x in ast.walk(loop.test) if isinstance(x, ast.Attribute) and x.attr == 'state']
+        if not awaited:
+            continue
+        target = U(awaited[0])
+        deadline_vars = {t.id for a in ast.walk(f.node) if isinstance(a, ast.Assign) and a.lineno < loop.lineno and 'timeout' in U(a.value)
+                         for t in a.targets if isinstance(t, ast.Name)}
+        for p in cx.enum_region(f, c, stmts=loop.body, max_depth=0):
+            if p.exit is not None and (p.exit == 'break' or (isinstance(p.exit, tuple) and p.exit[0] in ('return', 'exc'))):
+                continue
+            n += 1
+            sets = any(e.kind == 'assign' and U(e.a) == target for e in p.ev)
+            waits = any(e.kind == 'cond' and ('time.time()' in U(e.node) or 'monotonic()' in U(e.node)) and
+                        any(isinstance(x, ast.Name) and x.id in deadline_vars for x in ast.walk(e.node)) for e in p.ev)
+            conds = [(U(e.node)[:50], e.a) for e in p.ev if e.kind == 'cond']
+            ck.ob('R8', f.qn, 'iteration sets %s or is waiting on the deadline' % target, sets or waits,
+                  detail='wait-loop-iteration-without-progress %s' % conds[:3], loc=cx.floc(f, loop),
+                  message='RTU sendPacket: an iteration of `while %s` can end without changing %s and without consulting the deadline (%s): '
+                          'the call to send never returns' % (U(loop.test)[:50], target, conds[:3]))
+    ck.floor('R8', n, 3, 'iterations of the state-wait loop')
+
+
 def run(ck, tier):
     cx = Ctx()
+    ck.guard(r8_send_wait_loop_progress, ck, cx)
     ck.guard(r7_fixed_time_budget, ck, cx)
     ck.guard(r5_serial_flush, ck, cx)
     ck.guard(r6_short_first_read_is_a_fault, ck, cx)
